@@ -65,6 +65,8 @@ def relayout(rng, text):
                 head = t.startswith("<")
         if t.startswith("#") and (prev == "" or prev.isspace()):
             out.append(t)          # an existing comment stays as it is
+        elif t.isspace() and head and stmt_pos == 2 and prev in ("=", "::="):
+            out.append(lay(rng, False))   # blanks after the definition sign are optional (`<V>==low` is `<V> = =low`)
         elif t.isspace():
             out.append(lay(rng) if not (prev.startswith("#") and "\n" in t) else "\n" + lay(rng, False))
         elif t in ("=", "::=") and head and stmt_pos == 2:
@@ -192,7 +194,8 @@ def run(ctx, proof):
             text = f.read()
         groups.append((os.path.basename(p), [("original", text)] + [("layout", relayout(rng, text)) for _ in range(3)]))
     for i in range(n):
-        g = gen.Gen(rng, max_depth=rng.choice([2, 3, 4]), p_sub=0.2, p_descr=0.3)
+        g = gen.Gen(rng, max_depth=rng.choice([2, 3, 4]), p_sub=0.2, p_descr=0.3,
+                    lits=gen.LITS + (["=low", "=", "==x", ":y", "=high"] if i % 3 == 0 else []))
         parts = g.grammar_parts()
         groups.append((f"rnd{i}", variants_of(rng, parts)))
     # the layouts of the theorem (grammar_layout_irrelevant): grammars over the operator ladder printed by the Lean
